@@ -248,8 +248,15 @@ func main() {
 		if err := json.Unmarshal(raw, &c); err != nil {
 			kit.Harness("bad case: %v", err)
 		}
-		vs, _ := checkSrc(c.Src)
-		return vs
+		// The reader may carry state from one call to the next in the same process
+		// (a pooled buffer, a counter): a case that needs such history is replayed by
+		// repeating the same input; a violation on any repetition is genuine.
+		for i := 0; i < 12000; i++ {
+			if vs, _ := checkSrc(c.Src); len(vs) > 0 {
+				return vs
+			}
+		}
+		return nil
 	}
 	r.MaybeReplay()
 
